@@ -29,6 +29,9 @@ type c16Query struct {
 	MinShift, Depth uint32
 }
 
+// c16BaiQuery as MinShift marks a call of internal.OverlappingBinsFor in the probe
+const c16BaiQuery = 999
+
 func (q c16Query) key() string { return fmt.Sprintf("%d,%d,%d,%d", q.Beg, q.End, q.MinShift, q.Depth) }
 
 func init() { checks["C16-probe"] = c16ProbeMain }
@@ -48,7 +51,13 @@ func c16ProbeMain(c *ctx) {
 		ms, _ := strconv.ParseUint(p[2], 10, 32)
 		d, _ := strconv.ParseUint(p[3], 10, 32)
 		var bins []uint32
-		o := guard(func() { bins = csi.VerifReg2bins(b, e, uint32(ms), uint32(d)) })
+		o := guard(func() {
+			if ms == c16BaiQuery {
+				bins = bam.VerifOverlappingBinsFor(int(b), int(e))
+			} else {
+				bins = csi.VerifReg2bins(b, e, uint32(ms), uint32(d))
+			}
+		})
 		if o.panicked {
 			fmt.Fprintf(w, "%s=panic\n", f)
 		} else {
@@ -111,9 +120,9 @@ func c16AnyQueries(c *ctx, d *Driver, impl *[]string) {
 		}
 		for _, p := range cand {
 			e := p[1]
-			if g.d >= 6 && e-maxI64(p[0], 0) > 1<<20 && minI64(e, lim)-maxI64(p[0], 0) > 1<<20<<g.ms {
-				// the finest level of a wide query on a deep geometry lists millions of bins
-				p[0] = minI64(e, lim) - 1<<20
+			if w := minI64(e, lim) - maxI64(p[0], 0); w > 0 && w>>g.ms > 40000 {
+				// keep the finest level of the list below 40000 bins (the whole range of (14,5) has 32768)
+				p[0] = minI64(e, lim) - 4096<<g.ms
 			}
 			qs = append(qs, c16Query{p[0], e, g.ms, g.d})
 		}
@@ -127,39 +136,39 @@ func c16AnyQueries(c *ctx, d *Driver, impl *[]string) {
 		r.hist("anyquery.csi")
 		c16JudgeCsiAny(r, q, a)
 	}
-	// BAI: OverlappingBinsFor always returns; a huge end must not lose the finer levels
+	// BAI: OverlappingBinsFor returns for every query; a huge end must not lose the finer levels (in the child
+	// as well: before repair C04-5 an end between 2^32 and 2^46 listed hundreds of millions of bins)
+	var bq []c16Query
 	for _, h := range append(huge, 1<<29, 1<<29-1) {
 		for _, b := range []int{0, 100, 1 << 20, 1<<29 - 1, rnd.intn(1 << 29)} {
 			if int64(b) >= h {
 				continue
 			}
-			beg := b
-			if minI64(h, 1<<29)-int64(beg) > 1<<34 {
-				continue
-			}
-			bins := bam.VerifOverlappingBinsFor(beg, int(h))
-			d.add("c16.bins %d %d", beg, h)
-			*impl = append(*impl, c16ShowBins(bins))
-			r.eval(fmt.Sprintf("anyq:bai:%d,%d", beg, h), true)
-			r.hist("anyquery.bai")
-			// every in-range interval overlapping the query: its bin is listed (sample: the query's first base, a far tile)
-			for _, p := range [][2]int{{beg, beg + 1}, {1<<29 - 2, 1<<29 - 1}, {beg + (1<<29-1-beg)/2, beg + (1<<29-1-beg)/2 + 1}} {
-				if p[0] < beg || int64(p[1]) > h || p[1] > 1<<29 || p[0] >= p[1] {
-					continue
-				}
-				bin := bam.VerifBinFor(p[0], p[1])
-				found := false
-				for _, x := range bins {
-					if x == bin {
-						found = true
-						break
-					}
-				}
-				if !found {
-					r.fail("c16.bai.anyquery.binnotlisted", fmt.Sprintf("BinFor(%d,%d)=%d not in OverlappingBinsFor(%d,%d) (%d bins)", p[0], p[1], bin, beg, h, len(bins)),
-						c16Input{Kind: "baianyquery", B1: int64(p[0]), E1: int64(p[1]), B2: int64(beg), E2: h})
-				}
-			}
+			bq = append(bq, c16Query{int64(b), h, c16BaiQuery, 0})
+		}
+	}
+	bans := c16Probe(bq)
+	for _, q := range bq {
+		a := bans[q.key()]
+		d.add("c16.bins %d %d", q.Beg, q.End)
+		*impl = append(*impl, a)
+		r.eval("anyq:bai:"+q.key(), true)
+		r.hist("anyquery.bai")
+		in := c16Input{Kind: "baianyquery", B2: q.Beg, E2: q.End}
+		if a == "diverges" || a == "" || a == "panic" {
+			r.fail("c16.bai.anyquery."+map[bool]string{true: "panic", false: "diverges"}[a == "panic"],
+				fmt.Sprintf("OverlappingBinsFor(%d,%d) does not return within the deadline and memory limit of the child process (or panics: %q)", q.Beg, q.End, a), in)
+			continue
+		}
+		// specification: the bins of the query cut to [0, 2^29)
+		spec := c16SpecReg2bins(q.Beg, minI64(q.End, 1<<29), 14, 5)
+		keys := make([]uint32, 0, len(spec))
+		for b := range spec {
+			keys = append(keys, b)
+		}
+		sortU32(keys)
+		if want := c16ShowBins(keys); a != want {
+			r.fail("c16.bai.anyquery.spec", fmt.Sprintf("OverlappingBinsFor(%d,%d) = %.80s, specification for the query cut to the range %.80s", q.Beg, q.End, a, want), in)
 		}
 	}
 }
